@@ -32,6 +32,8 @@ TraceTick == Ev("Tick") /\ Adv /\ Tick
 
 TraceSequence == Ev("Sequence") /\ Adv /\ LET e == Trace[l] IN Sequence(e.k, e.rem)
 
+TraceResign == Ev("Resign") /\ Adv /\ LET e == Trace[l] IN Resign(e.rem)
+
 TraceAddChain ==
   /\ Ev("AddChain") /\ Adv
   /\ LET e == Trace[l] IN
@@ -70,7 +72,7 @@ TraceGetEntryAndProof ==
      /\ last'.reply.status = e.status
      /\ (e.status = 200 => last'.reply.entry = [cert |-> e.entry.cert, ts |-> e.entry.ts])
 
-TraceNext == TraceReset \/ TraceTick \/ TraceSequence \/ TraceAddChain \/ TraceGetSTH \/ TraceGetConsistency
+TraceNext == TraceReset \/ TraceTick \/ TraceSequence \/ TraceResign \/ TraceAddChain \/ TraceGetSTH \/ TraceGetConsistency
              \/ TraceGetProofByHash \/ TraceGetEntries \/ TraceGetEntryAndProof
 
 TraceView == <<now, stored, queue, tree, rootTs, l>>
